@@ -163,7 +163,7 @@ fn settings_grammar_order() {
 }
 #[kani::proof]
 #[kani::should_panic]
-fn settings_grammar_order_lr_refused() {
+fn settings_lr_refuses_no_grammar_order() {
     let mut s = any_settings();
     s.parser_algo = ParserAlgo::LR;
     let _ = s.lexical_disamb_grammar_order(false);
